@@ -989,3 +989,124 @@ Section Roots.
   Theorem TU_nth_root_zero dbg w a : TU_nth_root dbg w a 0 = Some Panic.
   Proof. reflexivity. Qed.
 End Roots.
+
+(* ================= Roots for BInt ================= *)
+
+Lemma zroot_small k X : 2 <= k -> 0 <= X -> zroot k X <= 1 \/ 2 * zroot k X <= X.
+Proof.
+  intros Hk HX. destruct (zroot_spec k X ltac:(lia) HX) as (H0 & H1 & _).
+  set (r := zroot k X) in *. destruct (Z_le_gt_dec r 1) as [|Hr]; [left; assumption|right].
+  assert (r ^ 2 <= r ^ k) by (apply Z.pow_le_mono_r; lia). rewrite Z.pow_2_r in *. nia.
+Qed.
+
+Lemma zroot_0 k : 1 <= k -> zroot k 0 = 0.
+Proof. intros. reflexivity. Qed.
+
+Section SignedRoots.
+  Context (D : deps_roots) (DS : deps_signed).
+
+  (* a root of a non-negative signed value, read back as signed *)
+  Lemma root_nonneg_signed w n a r k : 0 < w -> (0 < n)%nat -> wf w n a -> wf w n r -> 1 <= k ->
+    0 <= sval w a -> uval w r = zroot k (uval w a) -> sval w r = zroot k (sval w a).
+  Proof.
+    intros Hw Hn Ha Wr Hk Hs Vr.
+    destruct (sval_nonneg_uval w n a Hw Hn Ha Hs) as [E Hlt].
+    pose proof (zroot_le k (uval w a) Hk ltac:(lia)).
+    rewrite (sval_of_small w n r Hw Hn Wr); [rewrite Vr, E; reflexivity|lia].
+  Qed.
+
+  Theorem TI_sqrt_ok dbg w n a : 0 < w -> u128_width_ok w -> (0 < n)%nat -> wf w n a ->
+    if sval w a <? 0 then TI_sqrt dbg w a = Some Panic
+    else exists r, TI_sqrt dbg w a = Some (Ret r) /\ wf w n r /\ sval w r = zroot 2 (sval w a).
+  Proof.
+    intros Hw Hok Hn Ha. unfold TI_sqrt. rewrite (ds_neg DS w n a Hw Hn Ha).
+    destruct (Z.ltb_spec (sval w a) 0) as [Hneg|Hpos]; [reflexivity|].
+    destruct (TU_sqrt_ok D dbg w n a Hw Hok Hn Ha) as (r & Er & Wr & Vr).
+    exists r. split; [exact Er|]. split; [exact Wr|]. apply (root_nonneg_signed w n a r 2); auto; lia.
+  Qed.
+
+  (* |a| for negative a, its root, and the root's signed reading *)
+  Lemma neg_root_small w n a r k : 0 < w -> (0 < n)%nat -> 1 < Mod w n / 2 -> wf w n a -> wf w n r -> 2 <= k ->
+    sval w a < 0 -> uval w r = zroot k (- sval w a) ->
+    sval w r = zroot k (- sval w a) /\ sval w r <> - (Mod w n / 2).
+  Proof.
+    intros Hw Hn HM Ha Wr Hk Hs Vr.
+    pose proof (sval_range w n a Hw Hn Ha) as Hra.
+    destruct (zroot_small k (- sval w a) Hk ltac:(lia)) as [H1|H1];
+    destruct (zroot_spec k (- sval w a) ltac:(lia) ltac:(lia)) as (H0 & _).
+    - rewrite (sval_of_small w n r Hw Hn Wr); lia.
+    - rewrite (sval_of_small w n r Hw Hn Wr); lia.
+  Qed.
+
+  Theorem TI_cbrt_ok dbg w n a : 0 < w -> 3 < B w -> u128_width_ok w -> (0 < n)%nat -> wf w n a ->
+    exists r, TI_cbrt dbg w a = Some (Ret r) /\ wf w n r /\
+              sval w r = Z.sgn (sval w a) * zroot 3 (Z.abs (sval w a)).
+  Proof.
+    intros Hw HB3 Hok Hn Ha. unfold TI_cbrt. rewrite (ds_neg DS w n a Hw Hn Ha).
+    destruct (Z.ltb_spec (sval w a) 0) as [Hneg|Hpos].
+    - destruct (ds_uabs DS w n a Hw Hn Ha) as (Wa' & Va').
+      destruct (TU_cbrt_ok D dbg w n _ Hw HB3 Hok Hn Wa') as (out & Eo & Wo & Vo). rewrite Eo. cbn [fbind].
+      rewrite Va', Z.abs_neq in Vo by lia.
+      assert (HM : 1 < Mod w n / 2).
+      { pose proof (Mod_even w n Hw Hn). assert (B w <= Mod w n).
+        { destruct n as [|n']; [lia|]. rewrite Mod_S by lia. pose proof (Mod_pos w n' ltac:(lia)). pose proof (B_pos w ltac:(lia)). nia. }
+        lia. }
+      destruct (neg_root_small w n a out 3 Hw Hn HM Ha Wo ltac:(lia) Hneg Vo) as (So & Smin).
+      destruct (ds_ineg DS dbg w n out Hw Hn Wo Smin) as (r & Er & Wr & Vr).
+      unfold flift. rewrite Er. exists r. split; [reflexivity|]. split; [exact Wr|].
+      rewrite Vr, So, Z.sgn_neg, Z.abs_neq by lia. lia.
+    - destruct (TU_cbrt_ok D dbg w n a Hw HB3 Hok Hn Ha) as (r & Er & Wr & Vr).
+      exists r. split; [exact Er|]. split; [exact Wr|].
+      rewrite (root_nonneg_signed w n a r 3 Hw Hn Ha Wr ltac:(lia) Hpos Vr).
+      rewrite Z.abs_eq by lia. destruct (Z.eq_dec (sval w a) 0) as [E|E].
+      + rewrite E. reflexivity.
+      + rewrite Z.sgn_pos by lia. lia.
+  Qed.
+
+  (* nth_root for BInt: panics exactly for degree 0 and for a negative radicand with an even degree;
+     otherwise the root of largest magnitude, with the sign of the radicand *)
+  Theorem TI_nth_root_ok dbg w n a k : 0 < w -> 3 < B w -> u128_width_ok w -> (0 < n)%nat -> wf w n a ->
+    0 <= k < 2 ^ 32 ->
+    if (k =? 0) || ((sval w a <? 0) && Z.even k) then TI_nth_root dbg w a k = Some Panic
+    else exists r, TI_nth_root dbg w a k = Some (Ret r) /\ wf w n r /\
+                   sval w r = Z.sgn (sval w a) * zroot k (Z.abs (sval w a)).
+  Proof.
+    intros Hw HB3 Hok Hn Ha Hk. unfold TI_nth_root. rewrite (ds_neg DS w n a Hw Hn Ha).
+    destruct (Z.ltb_spec (sval w a) 0) as [Hneg|Hpos].
+    - destruct (Z.eqb_spec k 0) as [->|Hk0]; [reflexivity|]. cbn [orb andb].
+      destruct (Z.eqb_spec k 1) as [->|Hk1].
+      { cbn [Z.even]. exists a. split; [reflexivity|]. split; [exact Ha|].
+        rewrite Z.sgn_neg, Z.abs_neq by lia.
+        destruct (zroot_spec 1 (- sval w a) ltac:(lia) ltac:(lia)) as (H0 & H1 & H2). rewrite !Z.pow_1_r in *. lia. }
+      destruct (Z.even k) eqn:Eev; [reflexivity|].
+      assert (Hk3 : 3 <= k).
+      { destruct (Z.eq_dec k 2) as [->|]; [discriminate Eev|lia]. }
+      destruct (ds_uabs DS w n a Hw Hn Ha) as (Wa' & Va').
+      destruct (TU_nth_root_ok D dbg w n _ k Hw HB3 Hok Hn Wa' ltac:(lia)) as (out & Eo & Wo & Vo).
+      rewrite Eo. cbn [fbind].
+      rewrite Va', Z.abs_neq in Vo by lia.
+      assert (HM : 1 < Mod w n / 2).
+      { pose proof (Mod_even w n Hw Hn). assert (B w <= Mod w n).
+        { destruct n as [|n']; [lia|]. rewrite Mod_S by lia. pose proof (Mod_pos w n' ltac:(lia)). pose proof (B_pos w ltac:(lia)). nia. }
+        lia. }
+      destruct (neg_root_small w n a out k Hw Hn HM Ha Wo ltac:(lia) Hneg Vo) as (So & Smin).
+      destruct (ds_wneg DS w n out Hw Hn Wo) as (Wr & Vr).
+      eexists. split; [reflexivity|]. split; [exact Wr|].
+      rewrite Z.sgn_neg, Z.abs_neq by lia.
+      unfold sval at 1. rewrite (wf_length _ _ _ Wr), Vr.
+      pose proof (Mod_pos w n ltac:(lia)) as HMp. pose proof (Mod_even w n Hw Hn) as HMe.
+      rewrite to_signed_of_mod by assumption.
+      pose proof (sval_range w n out Hw Hn Wo) as Hro.
+      destruct (zroot_spec k (- sval w a) ltac:(lia) ltac:(lia)) as (H0 & _).
+      assert (Hu : uval w out = sval w out) by (apply (sval_nonneg_uval w n out); auto; lia).
+      rewrite wrapS_id by (try assumption; lia). lia.
+    - cbn [andb]. rewrite orb_false_r.
+      destruct (Z.eqb_spec k 0) as [->|Hk0]; [reflexivity|].
+      destruct (TU_nth_root_ok D dbg w n a k Hw HB3 Hok Hn Ha ltac:(lia)) as (r & Er & Wr & Vr).
+      exists r. split; [exact Er|]. split; [exact Wr|].
+      rewrite (root_nonneg_signed w n a r k Hw Hn Ha Wr ltac:(lia) Hpos Vr).
+      rewrite Z.abs_eq by lia. destruct (Z.eq_dec (sval w a) 0) as [E|E].
+      + rewrite E. rewrite zroot_0 by lia. reflexivity.
+      + rewrite Z.sgn_pos by lia. lia.
+  Qed.
+End SignedRoots.
